@@ -212,7 +212,7 @@ def run(ctx, out):
     n = ctx.n(60, 1200)
     nontrivial, seen, samples = 0, set(), []
     # name-clash histories: the edits the mechanism model's name checks (and its disjointness invariant) are about
-    nc = ctx.n(24, 600)
+    nc = ctx.n(16, 600)
     cases = [(ops, None, None) for ops in S.load_corpus("C03")] + [([], ctx.rng("hist", i), None) for i in range(n)] \
         + [([], ctx.rng("clash", i), S.gen_clash) for i in range(nc)]
     for i, (ops, rng, gen) in enumerate(cases):
